@@ -46,6 +46,17 @@ fn handle_case(
     // header flags are not the handler's business: NO_REPLY_EXPECTED (1), NO_AUTO_START (2), ALLOW_INTERACTIVE_AUTHORIZATION
     // (4) and undefined bits in any combination
     msg.flags = *rng.pick(&[0u8, 0, 1, 2, 3, 4, 5, 7, 0x80, 0xff]);
+    // arguments are not the handler's business either: one call in three carries a body
+    if rng.below(3) == 0 {
+        msg.body.reset();
+        match rng.below(3) {
+            0 => msg.body.push_param(7u32).unwrap(),
+            1 => msg.body.push_param("arg").unwrap(),
+            _ => msg.body.push_param((1u8, vec![2u64])).unwrap(),
+        }
+    } else {
+        msg.body.reset();
+    }
     // only a method CALL is answered: one message in four is a signal, a return or an error that names the same interface
     // and member
     let typ_code = if rng.below(4) == 0 { 2 + rng.below(3) as u8 } else { 1 };
